@@ -7,6 +7,7 @@ Oracle: an independently typed IUPAC table (mc/ref/iupac.py; a *set* of admissib
 Σ count·w − q·mₑ computed from the derivation-tree composition, definition of mass fractions.
 """
 import itertools
+from collections import OrderedDict
 
 from mc.core import Result
 from mc.ref import formula as F
@@ -220,16 +221,31 @@ def _check_mix(res, keys, coeffs, masses):
     res.evaluations += 1
     if len(keys) > 1:
         res.nontrivial += 1
-    try:
-        got = chempy.mass_fractions(stoich)
-    except Exception as e:
-        got = "EXC %s" % type(e).__name__
     tot = sum(masses[k] * c for k, c in stoich.items())
     exp = {k: masses[k] * c / tot for k, c in stoich.items()}
-    ok = isinstance(got, dict) and set(got) == set(exp) and all(got[k] > 0 and abs(got[k] - exp[k]) <= 1e-12 for k in exp) and abs(sum(got.values()) - 1) <= 1e-12
-    res.outcomes["mix-ok" if ok else "mix-WRONG"] += 1
-    if not ok:
-        res.violation("C14|mass_fractions|definition", "mass_fractions(%r) = %r, expected %r" % (stoich, got, exp), dict(layer="M", keys=list(keys), coeffs=list(coeffs)), got, exp)
+    # the substances may also be handed in: in the mixture's order, in reverse order, or as a larger registry
+    for how in ("default", "given", "given-reversed", "registry"):
+        if how != "default":
+            res.states += 1
+            res.transitions += 1
+            res.evaluations += 1
+        try:
+            if how == "default":
+                got = chempy.mass_fractions(stoich)
+            else:
+                ks = {"given": list(keys), "given-reversed": list(keys)[::-1], "registry": MIX[::-1]}[how]
+                got = chempy.mass_fractions(stoich, substances=OrderedDict((k, chempy.Substance.from_formula(k)) for k in ks))
+        except Exception as e:
+            got = "EXC %s" % type(e).__name__
+        ok = isinstance(got, dict) and set(got) == set(exp) and all(got[k] > 0 and abs(got[k] - exp[k]) <= 1e-12 for k in exp) and abs(sum(got.values()) - 1) <= 1e-12
+        res.outcomes["mix-ok" if ok else "mix-WRONG"] += 1
+        if not ok:
+            res.violation("C14|mass_fractions|definition|substances=%s" % how, "mass_fractions(%r, substances: %s) = %r, expected %r" % (stoich, how, got, exp), dict(layer="M", keys=list(keys), coeffs=list(coeffs)), got, exp)
+    got = None
+    try:
+        got = chempy.mass_fractions(stoich)
+    except Exception:
+        pass
     if isinstance(got, dict) and len(keys) == 1 and got != {keys[0]: 1.0}:
         res.violation("C14|mass_fractions|single", "single-component mixture %r has fractions %r" % (stoich, got), dict(layer="M", keys=list(keys), coeffs=list(coeffs)), got, {keys[0]: 1.0})
 
